@@ -482,6 +482,36 @@ def c12_extra(tier, seed, lean):
     res['evaluations'] = core['lines']; res['cases'] = core['cases']; res['distinct'] = core['distinct']
     res['samples'] = [dict(config=x['config'], case=[l[:120] for l in x['case']], impl=x['impl'][:300], model=x['model'][:300]) for x in core['samples'][:2]]
     res['info'] = dict(c12_configs=core['configs'], c12_stats={k: v for k, v in core['stats'].items() if k.startswith('throws')})
+    # max_size () over the widths of size_type x element sizes x allocator limits (harness/maxsize.cpp: the differential
+    # harness has one element size, for which the allocator's own limit always dominates the difference_type cap)
+    src = os.path.join(vlib.VERIF, 'harness', 'maxsize.cpp')
+    d = os.path.join(vlib.CACHE, 'c12m', vlib.sha(vlib.repo_fingerprint(), vlib.file_sha([src]))[:16])
+    os.makedirs(d, exist_ok=True)
+    builds = [('g++', 'c++17')] if tier == 'quick' else [('g++', 'c++11'), ('g++', 'c++17'), ('g++', 'c++20'), ('clang++', 'c++17')]
+    probes = {}
+    for cxx, std in builds:
+        if not toolchain_ok(cxx, std)[0]:
+            continue
+        key = cxx.replace('+', 'p') + '_' + std.replace('+', 'p')
+        exe = os.path.join(d, 'maxsize_' + key)
+        if not os.path.exists(exe):
+            rc, out = vlib.run([cxx, '-std=' + std, '-O1', '-g', '-fsanitize=address,undefined', '-fno-sanitize-recover=all',
+                                '-I' + os.path.join(vlib.REPO, 'source/include'), src, '-o', exe], timeout=900)
+            if rc != 0:
+                first = [l for l in out.split('\n') if 'error' in l][:2]
+                res['corr'].append(dict(why='harness/maxsize.cpp does not compile (%s %s): %s' % (cxx, std, ' | '.join(first)[:400]), op='-', config=key, impl='', model='', case=[]))
+                continue
+        rc, out = vlib.run([exe], timeout=300, env=vlib.ASAN_ENV)
+        for l in out.split('\n'):
+            if l.startswith('W! '):
+                res['w'].append(dict(msg=l[3:] + ' (%s %s)' % (cxx, std), op='harness/maxsize.cpp', config=key, case=[], impl=''))
+            m = re.match(r'done (\d+)', l)
+            if m:
+                probes[key] = int(m.group(1))
+                res['evaluations'] += int(m.group(1))
+        if rc != 0 and key not in probes:
+            res['w'].append(dict(msg='C12 the max_size probe crashed (%s %s): %s' % (cxx, std, out[-400:]), op='harness/maxsize.cpp', config=key, case=[], impl=''))
+    res['info'].update(c12_max_size_probes=probes)
     return res
 
 
